@@ -309,3 +309,32 @@ impl<T: Clone, const N: usize> FixedVec<T, N> {
         v
     }
 }
+
+/// A `FixedVec` behind one fixed-size heap allocation: moving it copies a pointer instead of N slots
+/// (array views embed their element storage in enum variants that are moved at every composition step).
+#[derive(Debug, Clone)]
+pub struct BoxVec<T, const N: usize>(pub Box<FixedVec<T, N>>);
+impl<T, const N: usize> BoxVec<T, N> {
+    pub fn new() -> Self {
+        BoxVec(Box::new(FixedVec::new()))
+    }
+    pub fn with_capacity(_c: usize) -> Self {
+        Self::new()
+    }
+}
+impl<T: Clone, const N: usize> BoxVec<T, N> {
+    pub fn from_slice(s: &[T]) -> Self {
+        BoxVec(Box::new(FixedVec::from_slice(s)))
+    }
+}
+impl<T, const N: usize> core::ops::Deref for BoxVec<T, N> {
+    type Target = FixedVec<T, N>;
+    fn deref(&self) -> &FixedVec<T, N> {
+        &self.0
+    }
+}
+impl<T, const N: usize> core::ops::DerefMut for BoxVec<T, N> {
+    fn deref_mut(&mut self) -> &mut FixedVec<T, N> {
+        &mut self.0
+    }
+}
